@@ -30,11 +30,23 @@ def conflict_loop_is_matching(fi: FuncInfo, lst: str) -> Tuple[bool, str]:
     body = w.body
     if len(body) < 3:
         return False, f"resolution loop has {len(body)} statements, expected at least 3 (index, collect, resolve)"
-    if flat(body[0]) != flat("matches = defaultdict(set)"):
-        return False, "the per-residue index is not rebuilt (matches = defaultdict(set)) in every round"
+    if flat(body[0]) not in (flat("matches = defaultdict(set)"), flat("matches = defaultdict(list)")):
+        return False, "the per-residue index is not rebuilt (matches = defaultdict(set) / defaultdict(list)) in every round"
     col = body[1]
-    if not (isinstance(col, ast.For) and norm(col.iter) == lst and [flat(s) for s in col.body] == [flat(f"matches[{norm(col.target)}.nt1_3d].add({norm(col.target)})"), flat(f"matches[{norm(col.target)}.nt2_3d].add({norm(col.target)})")]):
-        return False, "pairs are not indexed under both of their residues"
+    as_set = flat(body[0]) == flat("matches = defaultdict(set)")
+    ok_index = False
+    if isinstance(col, ast.For) and norm(col.iter) == lst and isinstance(col.target, ast.Name):
+        x = col.target.id
+        if as_set:
+            # sets: both residues index the pair
+            ok_index = [flat(s) for s in col.body] == [flat(f"matches[{x}.nt1_3d].add({x})"), flat(f"matches[{x}.nt2_3d].add({x})")]
+        elif len(col.body) == 1 and isinstance(col.body[0], ast.For) and isinstance(col.body[0].target, ast.Name):
+            # lists in input order (since /repo d067541): for residue in (x.nt1_3d, x.nt2_3d): if x not in matches[residue]: matches[residue].append(x)
+            inner = col.body[0]
+            r = inner.target.id
+            ok_index = flat(inner.iter) == flat(f"({x}.nt1_3d, {x}.nt2_3d)") and [flat(s) for s in inner.body] == [flat(f"if {x} not in matches[{r}]:\n    matches[{r}].append({x})")]
+    if not ok_index:
+        return False, "pairs are not indexed (once) under both of their residues"
     rest = body[2:]
     res = rest[0]
     if isinstance(res, ast.For) and len(rest) == 1:
@@ -498,10 +510,10 @@ def run(chk) -> None:
     # rules are only the fallback for a mechanism whose code is outside the interpreted fragment
     from checks import c06e
 
-    chk.robust |= {"canonical-candidates", "lifting-fact", "resolution-fact", "numbering-fact", "strands-fact", "strand-text-fact", "extended-fact"}
+    chk.robust |= {"mapping-input-fact", "canonical-candidates", "lifting-fact", "resolution-fact", "numbering-fact", "strands-fact", "strand-text-fact", "extended-fact"}
     decided = c06e.check(chk)
     check_lifting(chk, decided.get("lifting", False))
-    floors = {"lw-reverse": 1}
+    floors = {"lw-reverse": 1, "mapping-input-fact": 4}
     if decided.get("lifting"):
         floors["lifting-fact"] = 5
     else:
